@@ -438,6 +438,12 @@ func (s *Stream) startCallbackGoroutine() {
 						callback.OnData(s.recvBuf)
 						s.pendingData.moveTo(s.recvBuf)
 					}
+					// close() may have run clean() before this goroutine moved a late arrival into recvBuf (its Wait can
+					// miss a goroutine that is just being started). This goroutine owns recvBuf: it gives back what it moved.
+					if s.getStreamState() == uint32(streamClosed) {
+						s.pendingData.clear()
+						s.recvBuf.recycle()
+					}
 
 					atomic.StoreUint32(&s.callbackInProcess, 0)
 					if atomic.LoadUint32(&s.callbackCloseState) == uint32(callbackWaitExit) {
